@@ -776,9 +776,22 @@ pub fn c09_call_order(run: &Run) {
             }
         }
     }
+    // and each call as the FIRST validation of a fresh process (process-wide state in its initial condition)
+    let mut n_fresh = 0u64;
+    for (a, call) in calls.iter().enumerate() {
+        let case = json!({"op": "c09.first", "ep": call.0, "x": crate::api::jf2(&cands[call.1].0), "y": crate::api::jf2(&cands[call.1].1)});
+        n_fresh += 1;
+        if let Err(mut e) = crate::outcome_fresh(&case) {
+            e.class = format!("fresh-process:{}", e.class);
+            e.msg = format!("[{}] {}", cands[call.1].2, e.msg);
+            let cc = case.clone();
+            run.record_fail("c09.call-order", (calls.len() * calls.len() + a) as u64, e, || json!({"op": "c09.fresh", "inner": cc}));
+        }
+    }
+    n_seq += n_fresh;
     run.add_counts(n_seq, n_seq * 2, n_seq);
-    run.add_driver_summary(json!({"driver": "c09.call-order", "engine": "sequential grid (one thread, nothing else running)", "calls": calls.len(),
-        "ordered_pairs_of_calls": n_seq, "wall_s": t0.elapsed().as_secs_f64()}));
+    run.add_driver_summary(json!({"driver": "c09.call-order", "first_call_of_a_fresh_process": n_fresh, "engine": "sequential grid (one thread, nothing else running)", "calls": calls.len(),
+        "ordered_pairs_of_calls": n_seq - n_fresh, "wall_s": t0.elapsed().as_secs_f64()}));
     eprintln!("[C09] c09.call-order               cases={:<10} transitions={:<11} {:.1}s", n_seq, n_seq * 2, t0.elapsed().as_secs_f64());
 }
 pub fn c09_callorder_replay(c: &Value) -> Result<(), Bad> {
@@ -813,6 +826,8 @@ pub fn replay(c: &Value) -> Result<(), Bad> {
         "c08.fq2" => fq2_case(&gb(c, "bytes")).map(|_| ()),
         "c09.g1" => c09_g1_case(&mccore::gn(c, "x"), &mccore::gn(c, "y")).map(|_| ()),
         "c09.callorder" => c09_callorder_replay(c),
+        "c09.first" => c09_validate_once(c["ep"].as_u64().unwrap_or(0), &crate::api::gf2(&c["x"]), &crate::api::gf2(&c["y"])),
+        "c09.fresh" => crate::outcome_fresh(&c["inner"]),
         "c09.g2" => c09_g2_case(&crate::api::gf2(&c["x"]), &crate::api::gf2(&c["y"])).map(|_| ()),
         o => panic!("unknown op {}", o),
     }
